@@ -126,6 +126,12 @@ def run(ids):
                 entry[tier] = {"exit": rc, "seconds": round(time.time() - t0, 1), "lines": lines[:8]}
                 if rc != 0:
                     break
+                m_ = [l for l in out.splitlines() if l.startswith("VIOLATION") and "replay=" in l]
+                if m_:
+                    # keep the failing input this change was caught with (corpus: `tools_seeded.py corpus`)
+                    rp = m_[0].split("replay=")[1].split()[0]
+                    if os.path.exists(rp):
+                        shutil.copy(rp, os.path.join(d, "replay.json"))
             entry["detected"] = any(entry.get(t, {}).get("exit") == 1 for t in ("quick", "thorough"))
             entry["detected_by"] = next((t for t in ("quick", "thorough") if entry.get(t, {}).get("exit") == 1), None)
         finally:
@@ -142,6 +148,32 @@ def run(ids):
 
 TIERS = ("quick", "thorough")
 
+
+def corpus():
+    """corpus/<property>/<change>.json: the failing inputs the seeded changes were caught with, as far as they are
+    single case lines both sides can re-execute (kind correspondence, command known to harness/cmd/vh/replay.go);
+    `check` runs them first on every run"""
+    import re
+    known = set(re.findall(r'^\s+"([a-z0-9.]+)":\s+impl', open(os.path.join(ROOT, "harness", "cmd", "vh", "replay.go")).read(), re.M))
+    n = 0
+    for name in sorted(os.listdir(SEEDED)):
+        rp = os.path.join(SEEDED, name, "replay.json")
+        if not os.path.exists(rp):
+            continue
+        r = json.load(open(rp))
+        keep = [x for x in r.get("disagreements", []) if x.get("kind") == "correspondence"
+                and x.get("case", "").split(" ")[0] in known and len(x.get("case", "")) < 60000][:3]
+        if not keep:
+            continue
+        prop = name.split("-")[0]
+        os.makedirs(os.path.join(ROOT, "corpus", prop), exist_ok=True)
+        json.dump({"property": prop, "seed": r.get("seed", 1), "origin": "seeded/" + name,
+                   "disagreements": [{"kind": x["kind"], "case": x["case"], "what": x.get("what", "")} for x in keep]},
+                  open(os.path.join(ROOT, "corpus", prop, name + ".json"), "w"), indent=1)
+        n += 1
+    print("corpus files written:", n)
+
+
 if __name__ == "__main__":
     if "--quick-only" in sys.argv:
         sys.argv.remove("--quick-only")
@@ -151,5 +183,7 @@ if __name__ == "__main__":
         confirm(sys.argv[2:])
     elif len(sys.argv) >= 2 and sys.argv[1] == "run":
         run(sys.argv[2:])
+    elif len(sys.argv) >= 2 and sys.argv[1] == "corpus":
+        corpus()
     else:
         print(__doc__)
